@@ -1,6 +1,6 @@
 #!/bin/bash
 # usage: tools/run_seeds.sh <check-id> [tier]   - run every seeded change of that property
-cd /verif
+cd "$(dirname "$0")/.."
 check=$1; tier=${2:-quick}
 for d in seeded/$check-*/; do
   out=$(tools/try_seed.sh $d/patch.diff $check $tier 2>&1)
